@@ -31,6 +31,7 @@ _CONTROL_STRUCTURES = (
     ast.With,
     ast.AsyncWith,
     ast.Try,
+    ast.TryStar,
     ast.Match,
 )
 
